@@ -44,7 +44,7 @@ ROUTES = ["arrays", "frame_default", "frame_shift", "frame_perm_labels", "frame_
 
 def strat_same():
     return st.builds(lambda route, iso, k, intv: {"route": route, "iso": iso, "k": k, "int_valued": intv},
-                     st.sampled_from(ROUTES), S.point_desc(min_points=1, max_points=8, grid=6), st.integers(0, 10 ** 6),
+                     st.sampled_from(ROUTES), S.point_desc(min_points=1, max_points=8, grid=6, int_data=False), st.integers(0, 10 ** 6),
                      st.booleans())
 
 
@@ -213,7 +213,7 @@ FIELDS = ["meta_value", "meta_key", "pressure_unit", "pressure_mode", "loading_u
 
 def strat_diff():
     return st.builds(lambda field, iso, k: {"field": field, "iso": iso, "k": k},
-                     st.sampled_from(FIELDS), S.point_desc(min_points=1, max_points=8, grid=6, force_extras=True, extras=True),
+                     st.sampled_from(FIELDS), S.point_desc(min_points=1, max_points=8, grid=6, force_extras=True, extras=True, int_data=False),
                      st.integers(0, 10 ** 6))
 
 
@@ -329,7 +329,7 @@ INPLACE = ["meta_value", "meta_new_key", "data_value", "branch_mark", "material_
 
 def strat_inplace():
     return st.builds(lambda field, iso, k, read_first: {"field": field, "iso": iso, "k": k, "read_first": read_first},
-                     st.sampled_from(INPLACE), S.point_desc(min_points=1, max_points=8, grid=6, force_extras=True, extras=True),
+                     st.sampled_from(INPLACE), S.point_desc(min_points=1, max_points=8, grid=6, force_extras=True, extras=True, int_data=False),
                      st.integers(0, 10 ** 6), st.sampled_from([True, True, False]))
 
 
@@ -517,7 +517,7 @@ json.dump(out, sys.stdout)
 
 def strat_process():
     return st.builds(lambda isos, hs: {"isos": isos, "hashseed": hs},
-                     st.lists(S.point_desc(min_points=1, max_points=6, grid=6), min_size=12, max_size=12), st.integers(1, 4000))
+                     st.lists(S.point_desc(min_points=1, max_points=6, grid=6, int_data=False), min_size=12, max_size=12), st.integers(1, 4000))
 
 
 def check_process(desc, ctx):
